@@ -17,6 +17,7 @@ type Env struct {
 	locals bool // resolve identifiers to local variables of fr (loop invariants, call-site assertions)
 	pkg    string
 	bound  map[string]string // quantified variables -> sort
+	inOld  bool
 }
 
 func (e *Env) sub() *Env {
@@ -162,14 +163,38 @@ func (u *Unit) lookupIdent(name string, env *Env) Val {
 	case "nil":
 		return Val{T: Term{"nil", "Nil"}}
 	}
+	if env.inOld && env.fr != nil {
+		// inside old(): parameters denote their entry values, not the (mutable) local copies
+		if v, ok := env.fr.params[name]; ok {
+			return v
+		}
+	}
 	if env.locals && env.fr != nil {
 		if cs := env.fr.byName[name]; len(cs) > 0 {
 			c := cs[len(cs)-1]
 			if len(cs) > 1 {
-				// prefer the cell that currently has a value in the state
+				// several variables share the name (shadowing): take the innermost one whose
+				// declaration dominates the program point the clause is attached to
+				best, bestDepth := (*Cell)(nil), -1
 				for _, cand := range cs {
-					if _, ok := env.st.cells[cand]; ok {
-						c = cand
+					if cand.blk == nil || u.scopeBlk == nil || !(cand.blk == u.scopeBlk || cand.blk.Dominates(u.scopeBlk)) {
+						continue
+					}
+					d := 0
+					for b := cand.blk; b != nil; b = b.Idom() {
+						d++
+					}
+					if d > bestDepth {
+						best, bestDepth = cand, d
+					}
+				}
+				if best != nil {
+					c = best
+				} else {
+					for _, cand := range cs {
+						if _, ok := env.st.cells[cand]; ok {
+							c = cand
+						}
 					}
 				}
 			}
@@ -492,6 +517,7 @@ func (u *Unit) evalCall(e *SExpr, env *Env) Val {
 		}
 		sub := *env
 		sub.st = env.old
+		sub.inOld = true
 		return u.eval(e.Args[0], &sub)
 	case "len":
 		x := u.eval(e.Args[0], env)
@@ -504,6 +530,14 @@ func (u *Unit) evalCall(e *SExpr, env *Env) Val {
 		if x.Typ != nil {
 			if at, ok := x.Typ.Underlying().(*types.Array); ok {
 				return Val{T: intLit(at.Len())}
+			}
+		}
+		if x.Typ != nil {
+			if mt, ok := x.Typ.Underlying().(*types.Map); ok {
+				f := "maplen_" + mangle(u.typeKey(mt))
+				_, dh, _, _ := u.mapHeaps(env.st, mt)
+				u.declareOnce(f, fmt.Sprintf("(declare-fun %s (%s) Int)", f, arrayElem(dh.Sort)))
+				return Val{T: ite(eq(x.T, intLit(0)), intLit(0), app("Int", f, sel(dh, x.T)))}
 			}
 		}
 		u.specFail("len of %s", x.T.Sort)
